@@ -29,9 +29,9 @@ def gen_scenario(rng, cfg):
         elif k < 51:
             ops.append({"op": "ctrlc"})
         elif k < 60:
-            ops.append({"op": "fg", "job": rng.below(3), "bare": rng.chance(20)})
+            ops.append({"op": "fg", "job": rng.below(3), "bare": rng.chance(20), "pct": rng.chance(30)})
         elif k < 68:
-            ops.append({"op": "bg", "job": rng.below(3), "bare": rng.chance(20)})
+            ops.append({"op": "bg", "job": rng.below(3), "bare": rng.chance(20), "pct": rng.chance(30)})
         elif k < 80:
             ops.append({"op": "sig", "job": rng.below(3), "member": rng.below(3),
                         "sig": int(rng.choice([signal.SIGKILL, signal.SIGSTOP, signal.SIGCONT, signal.SIGTERM, signal.SIGSTOP]))})
@@ -40,7 +40,11 @@ def gen_scenario(rng, cfg):
         elif k < 94:
             ops.append({"op": "jobs"})
         elif k < 95:
-            ops.append({"op": "empty"})
+            if rng.chance(40):
+                ops.append({"op": "empty"})
+            else:
+                # job-control builtins that cannot find their job: an error message, nothing else changes
+                ops.append({"op": "badjob", "line": rng.choice(["fg 99", "bg 99", "fg abc", "bg %zz", "fg %98", "bg 0"])})
         elif k < 96:
             ops.append({"op": "detach", "job": rng.below(3)})
         elif k < 98:
@@ -388,7 +392,7 @@ class C07Runner:
             if job is None or job.id is None:
                 return False
             bare = op.get("bare") and len(others) == 1
-            line = k if bare else "%s %d" % (k, job.id)
+            line = k if bare else ("%s %%%d" if op.get("pct") else "%s %d") % (k, job.id)
             sim.ev("type", "%s %s" % (k, job.label()))
             if k == "fg" and getattr(job, "detached", False):
                 # tcsetpgrp() to a vanished group fails: fg reports an error and returns
@@ -423,6 +427,11 @@ class C07Runner:
             self.jobs_query = True
             self.shell.set_mark()
             sh.type_line("jobs")
+            return True
+        if k == "badjob":
+            sim.ev("type", op["line"])
+            sim.probe("fg_or_bg_with_an_unknown_job")
+            sh.type_line(op["line"])
             return True
         if k == "empty":
             sim.ev("type", "<empty>")
